@@ -214,7 +214,10 @@ def run(tier, seed, replay=None):
     for j in range(12 if tier == "quick" else 120):
         ms = [2, 4, 8, 4, 2, 8][j % 6]; op_ = j % 2 == 1
         d_ = rng_q.choice([1, 2, 3]); Nq = [ms ** rng_q.choice([1, 2] if ms < 8 else [1, 1, 2]) for _ in range(d_)]
-        while int(np.prod(Nq)) ** (2 if op_ else 1) > 70000: Nq[Nq.index(max(Nq))] = ms
+        while int(np.prod(Nq)) ** (2 if op_ else 1) > 70000:
+            if all(v_ == ms for v_ in Nq): Nq.pop()                      # already the smallest modes: one mode fewer
+            else: Nq[Nq.index(max(Nq))] = ms
+        d_ = len(Nq)
         cplx_ = rng_q.random() < 0.3; dt_ = torch.complex128 if cplx_ else torch.float64
         desc = {"op": "to_qtt(mode_size)", "operator": op_, "N": Nq, "mode_size": ms, "dtype": str(dt_)}
         try:
